@@ -27,6 +27,8 @@ import (
 )
 
 func init() {
+	zzverif.Register("VerifC09Warm", VerifC09Warm)
+	zzverif.Register("VerifC09WarmLong", VerifC09WarmLong)
 	zzverif.Register("VerifC09One", VerifC09One)
 	zzverif.Register("VerifC09Two", VerifC09Two)
 	zzverif.Register("VerifC09Three", VerifC09Three)
@@ -79,6 +81,8 @@ type c09Cfg struct {
 	pool  int  // names per kind (2 or 3)
 	edits int  // unsaved text in 0: {none, f1} (f0 when n == 1); 1: {none, any file}; 2: {none, f1, the last file}
 	via   int  // the unsaved text may also arrive with didOpen (no didChange): 0 never, 1 in workspace mode only, 2 in both modes
+	warm  bool // the requesting file is opened, analysed and ASKED first; the other file's unsaved text arrives afterwards
+	flick bool // warm only: afterwards the include lines of the requesting file may be commented out and restored (two changes)
 }
 
 type c09Occ struct {
@@ -118,6 +122,8 @@ type c09WS struct {
 	req     int
 	edit    int  // index of the file that is open with unsaved text, -1 none
 	viaOpen bool // the unsaved text arrived with didOpen
+	warm    bool // requests were answered from the requesting file before the unsaved text arrived
+	flick   bool // the requesting file's include lines were commented out and restored before the request
 	pool    int
 	files   []*c09File
 	maxNm   int // canonical naming: largest pool index used so far
@@ -235,6 +241,12 @@ func c09Build(c c09Cfg) *c09WS {
 		if c.via == 2 || (c.via == 1 && w.ws) {
 			w.viaOpen = zzverif.Choice("viaopen", 2) == 1
 		}
+	}
+	if c.warm {
+		// state surviving from an earlier request: only meaningful with unsaved text in another file
+		zzverif.Assume(w.edit >= 0 && w.req != w.edit)
+		w.warm = true
+		w.flick = c.flick && zzverif.Choice("flick", 2) == 1
 	}
 	declPat := 0
 	tx2file := -1
@@ -482,6 +494,23 @@ func (w *c09WS) open() *Server {
 			s.publishDiagnostics(ctx, w.uri(i), text) // natively: run the background task synchronously as well
 		}
 	}
+	openReq := func() {
+		notify(func() {
+			_ = s.DidOpen(ctx, &protocol.DidOpenTextDocumentParams{TextDocument: protocol.TextDocumentItem{URI: w.uri(w.req), Text: w.files[w.req].cur, Version: 1}})
+		})
+		sync(w.req, w.files[w.req].cur)
+	}
+	if w.warm {
+		// the requesting file first; every kind of request is answered once on each of its
+		// occurrences (whatever the server keeps from these answers is now in place)
+		openReq()
+		for _, oc := range w.files[w.req].occs {
+			tdp := protocol.TextDocumentPositionParams{TextDocument: protocol.TextDocumentIdentifier{URI: w.uri(w.req)}, Position: protocol.Position{Line: uint32(oc.line), Character: uint32(oc.s)}}
+			_, _ = s.References(ctx, &protocol.ReferenceParams{TextDocumentPositionParams: tdp, Context: protocol.ReferenceContext{IncludeDeclaration: true}})
+			_, _ = s.Definition(ctx, &protocol.DefinitionParams{TextDocumentPositionParams: tdp})
+			_, _ = s.Rename(ctx, &protocol.RenameParams{TextDocumentPositionParams: tdp, NewName: "zz:warm"})
+		}
+	}
 	if w.edit >= 0 {
 		f := w.files[w.edit]
 		if w.viaOpen {
@@ -502,13 +531,42 @@ func (w *c09WS) open() *Server {
 			sync(w.edit, f.cur)
 		}
 	}
-	if w.req != w.edit {
-		notify(func() {
-			_ = s.DidOpen(ctx, &protocol.DidOpenTextDocumentParams{TextDocument: protocol.TextDocumentItem{URI: w.uri(w.req), Text: w.files[w.req].cur, Version: 1}})
-		})
-		sync(w.req, w.files[w.req].cur)
+	if w.req != w.edit && !w.warm {
+		openReq()
+	}
+	if w.flick {
+		// the files below the requesting file leave its tree and enter it again
+		cur := w.files[w.req].cur
+		for _, text := range []string{c09CommentIncludes(cur), cur} {
+			notify(func() {
+				_ = s.DidChange(ctx, &protocol.DidChangeTextDocumentParams{
+					TextDocument:   protocol.VersionedTextDocumentIdentifier{TextDocumentIdentifier: protocol.TextDocumentIdentifier{URI: w.uri(w.req)}, Version: 3},
+					ContentChanges: []protocol.TextDocumentContentChangeEvent{{Text: text}}})
+			})
+			sync(w.req, text)
+		}
 	}
 	return s
+}
+
+// c09CommentIncludes: the text with every include directive turned into a comment line.
+func c09CommentIncludes(text string) string {
+	out := ""
+	start := 0
+	for i := 0; i <= len(text); i++ {
+		if i == len(text) || text[i] == '\n' {
+			ln := text[start:i]
+			if len(ln) >= 8 && ln[:8] == "include " {
+				ln = ";" + ln
+			}
+			out += ln
+			if i < len(text) {
+				out += "\n"
+			}
+			start = i + 1
+		}
+	}
+	return out
 }
 
 // applyEdits: the reference applier for one file (ASCII: characters are bytes): edits must be valid, non-overlapping
@@ -731,6 +789,10 @@ func (w *c09WS) reparse(fi int, text string, kind int, renamed []c09Loc, newName
 func VerifC09One()   { verifC09(c09Cfg{n: 1, rich: true, tx2: 2, pool: 3, edits: 0, via: 2}) }
 func VerifC09Two()   { verifC09(c09Cfg{n: 2, rich: true, tx2: 1, pool: 2, edits: 0, via: 1}) }
 func VerifC09Three() { verifC09(c09Cfg{n: 3, rich: false, pool: 2, edits: 0}) }
+
+// state surviving from an earlier request (quick: 2 files, thorough: 3 files and any file edited)
+func VerifC09Warm()     { verifC09(c09Cfg{n: 3, rich: false, pool: 2, edits: 0, via: 2, warm: true, flick: true}) }
+func VerifC09WarmLong() { verifC09(c09Cfg{n: 3, rich: true, tx2: 0, pool: 2, edits: 1, via: 2, warm: true, flick: true}) }
 
 // thorough tier
 func VerifC09TwoLong()   { verifC09(c09Cfg{n: 2, rich: true, tx2: 1, pool: 3, edits: 1, via: 1}) }
